@@ -74,6 +74,7 @@ type TxSpec struct {
 	Value    uint64 `json:"value,omitempty"`
 	Blobs    int    `json:"blobs,omitempty"`
 	BlobFee  uint64 `json:"blobfee,omitempty"`
+	Data     int    `json:"data,omitempty"` // calldata length (non-zero bytes)
 	Auth     int    `json:"auth,omitempty"` // setcode: authority account
 	AuthBad  bool   `json:"auth_bad,omitempty"`
 }
@@ -126,8 +127,8 @@ func hasPrague(f string) bool { return f != "cancun" }
 
 func genTx(r *simcore.Rand, fork string, blobs bool, baseFee uint64, gasLimit uint64) TxSpec {
 	t := TxSpec{From: r.Intn(nAccounts - 1)}
-	kinds := []string{"xfer", "revert", "burn", "count", "selfd", "create", "fwd", "deleg", "big"}
-	t.Kind = kinds[r.Pick(6, 2, 2, 4, 1, 1, 2, 2, 1)]
+	kinds := []string{"xfer", "revert", "burn", "count", "selfd", "create", "fwd", "deleg", "big", "data"}
+	t.Kind = kinds[r.Pick(6, 2, 2, 4, 1, 1, 2, 2, 1, 2)]
 	switch r.Pick(2, 1, 4, 2, 2) {
 	case 0:
 		t.Type = "legacy"
@@ -165,6 +166,15 @@ func genTx(r *simcore.Rand, fork string, blobs bool, baseFee uint64, gasLimit ui
 		t.Value = uint64(r.Intn(1000)) * gwei
 		if r.Bool(0.05) {
 			t.Value = 5_000_000_000 * gwei // more than a poor account has
+		}
+	case "data":
+		// a transfer with calldata and a gas limit near the intrinsic cost: what is enough under
+		// one rule set (16 gas per byte) may be below the calldata floor of the next (EIP-7623)
+		t.Kind = "xfer"
+		t.Data = r.Range(1, 300)
+		t.Gas = 21000 + 16*uint64(t.Data) + uint64(r.Intn(30*t.Data+1))
+		if t.Type == "setcode" || t.Type == "al" {
+			t.Gas += 30000
 		}
 	case "burn":
 		t.Gas = uint64(r.Range(30, 400)) * 1000
@@ -223,7 +233,7 @@ func genTxs(r *simcore.Rand, n int, fork string, blobs bool, gasLimit uint64) []
 
 func Gen(r *simcore.Rand, tier string) any {
 	p := &Plan{}
-	p.Fork = forks[r.Pick(3, 3, 3, 4, 1, 1, 2)]
+	p.Fork = forks[r.Pick(3, 3, 3, 4, 2, 1, 2)]
 	p.Scheme = []string{"hash", "path"}[r.Intn(2)]
 	// blob transactions are only includable from Osaka on (the pool of this tree keeps
 	// version-1 sidecars only and the builder asks for version 0 before Osaka)
@@ -472,7 +482,7 @@ func chainConfig(fork string, genesisTime uint64) *params.ChainConfig {
 	cfg.MergeNetsplitBlock = common.Big0
 	cfg.BlobScheduleConfig = params.DefaultBlobSchedule
 	zero := u64(0)
-	later := u64(genesisTime + 25) // transition forks activate a few blocks in
+	later := u64(genesisTime + 12) // transition forks activate a few blocks in
 	cfg.ShanghaiTime, cfg.CancunTime = zero, zero
 	set := func(name string, at *uint64) {
 		switch name {
@@ -783,18 +793,22 @@ func (w *world) makeTx(t TxSpec, nonce uint64) (*types.Transaction, error) {
 	}
 	value := new(big.Int).SetUint64(t.Value)
 	feeCap, tip := new(big.Int).SetUint64(t.FeeCap), new(big.Int).SetUint64(t.Tip)
+	var data []byte
+	for i := 0; i < t.Data; i++ {
+		data = append(data, byte(i%250+1))
+	}
 	var inner types.TxData
 	switch t.Type {
 	case "legacy":
-		inner = &types.LegacyTx{Nonce: nonce, To: &to, Gas: t.Gas, GasPrice: feeCap, Value: value}
+		inner = &types.LegacyTx{Nonce: nonce, To: &to, Gas: t.Gas, GasPrice: feeCap, Value: value, Data: data}
 	case "al":
-		inner = &types.AccessListTx{ChainID: w.cfg.ChainID, Nonce: nonce, To: &to, Gas: t.Gas, GasPrice: feeCap, Value: value,
+		inner = &types.AccessListTx{ChainID: w.cfg.ChainID, Nonce: nonce, To: &to, Gas: t.Gas, GasPrice: feeCap, Value: value, Data: data,
 			AccessList: types.AccessList{{Address: contracts[2].addr, StorageKeys: []common.Hash{{}}}}}
 	case "dyn":
-		inner = &types.DynamicFeeTx{ChainID: w.cfg.ChainID, Nonce: nonce, To: &to, Gas: t.Gas, GasFeeCap: feeCap, GasTipCap: tip, Value: value}
+		inner = &types.DynamicFeeTx{ChainID: w.cfg.ChainID, Nonce: nonce, To: &to, Gas: t.Gas, GasFeeCap: feeCap, GasTipCap: tip, Value: value, Data: data}
 	case "blob":
 		if !w.p.BlobPool {
-			inner = &types.DynamicFeeTx{ChainID: w.cfg.ChainID, Nonce: nonce, To: &to, Gas: t.Gas, GasFeeCap: feeCap, GasTipCap: tip, Value: value}
+			inner = &types.DynamicFeeTx{ChainID: w.cfg.ChainID, Nonce: nonce, To: &to, Gas: t.Gas, GasFeeCap: feeCap, GasTipCap: tip, Value: value, Data: data}
 			break
 		}
 		// the pool of this tree only takes cell-proof (version 1) sidecars, whatever the fork
@@ -817,7 +831,7 @@ func (w *world) makeTx(t TxSpec, nonce uint64) (*types.Transaction, error) {
 			return nil, err
 		}
 		inner = &types.SetCodeTx{ChainID: uint256.MustFromBig(w.cfg.ChainID), Nonce: nonce, To: to, Gas: t.Gas,
-			GasFeeCap: uint256.MustFromBig(feeCap), GasTipCap: uint256.MustFromBig(tip), Value: uint256.MustFromBig(value),
+			GasFeeCap: uint256.MustFromBig(feeCap), GasTipCap: uint256.MustFromBig(tip), Value: uint256.MustFromBig(value), Data: data,
 			AuthList: []types.SetCodeAuthorization{auth}}
 	default:
 		return nil, fmt.Errorf("unknown tx type %q", t.Type)
@@ -909,6 +923,13 @@ func (w *world) replace(n uint64) {
 
 // ---- the oracle: import on the validator node
 
+func derefU64(p *uint64) uint64 {
+	if p == nil {
+		return 0
+	}
+	return *p
+}
+
 func errClass(err error) string {
 	s := err.Error()
 	var sb strings.Builder
@@ -955,7 +976,7 @@ func (w *world) judge(what string, env *engine.ExecutionPayloadEnvelope, beaconR
 	}
 	if _, err := w.validator.InsertChain(types.Blocks{block}); err != nil {
 		v := simcore.Violf("import-rejected", "%s: block %d (%d txs, gas used %d, blob gas %v, parent %x) built by the miner was rejected by InsertChain on the validator node: %v",
-			what, block.NumberU64(), len(block.Transactions()), block.GasUsed(), block.BlobGasUsed(), block.ParentHash().Bytes()[:6], err)
+			what, block.NumberU64(), len(block.Transactions()), block.GasUsed(), derefU64(block.BlobGasUsed()), block.ParentHash().Bytes()[:6], err)
 		v.Key = "import-rejected:" + errClass(err)
 		w.fail(v)
 		return nil
@@ -1306,9 +1327,9 @@ func Checks() map[string]*simcore.Check {
 			"actions planned for the same virtual instant as a recommit tick (Resolve at exactly k*Recommit, at +0) race with the builder goroutine in real time; such slots are excluded from the determinism fingerprint",
 			"state prefetcher and trie hashing goroutines inside one build",
 		},
-		Runs:       map[string]int{"quick": 640, "thorough": 30000},
+		Runs:       map[string]int{"quick": 960, "thorough": 30000},
 		Gen:        Gen, Decode: Decode, Run: Run, Shrink: Shrink,
-		ProbeNames: []string{"blocks-imported", "blocks-imported-nonempty", "blocks-with-blob-txs", "blocks-with-setcode-txs", "blocks-with-withdrawals", "included-tx-failed-receipt", "block-full", "resolved-before-first-full-build", "resolved-full", "second-resolve-differs", "head-changed-during-build", "built-on-non-head-parent", "builder-tx-failed-account-skipped", "builder-skipped-low-nonce", "builder-tx-does-not-fit-gas", "builder-block-gas-exhausted", "builder-tx-does-not-fit-blobs", "builder-fill-interrupted-by-timeout", "payload-loop-ended-by-delivery", "payload-loop-ended-by-timeout", "pool-rejected", "pool-replaced", "event-add", "event-replace", "event-head", "event-tip", "event-extra"},
+		ProbeNames: []string{"blocks-imported", "blocks-imported-nonempty", "blocks-with-blob-txs", "blocks-with-setcode-txs", "blocks-with-withdrawals", "included-tx-failed-receipt", "block-full", "resolved-before-first-full-build", "resolved-full", "head-changed-during-build", "built-on-non-head-parent", "builder-tx-failed-account-skipped", "builder-skipped-low-nonce", "builder-tx-does-not-fit-gas", "builder-block-gas-exhausted", "builder-tx-does-not-fit-blobs", "builder-fill-interrupted-by-timeout", "payload-loop-ended-by-delivery", "payload-loop-ended-by-timeout", "pool-rejected", "pool-replaced", "event-add", "event-replace", "event-head", "event-tip", "event-extra"},
 	}}
 }
 
